@@ -106,7 +106,7 @@ def renderCoord (tag : String) (c : Coord) : List Ev → List String
     let (c', rs) := match e with
       | .report r now => coordOnCommitted c r now
       | .flush now => coordFlush c now
-    let line := s!"#{tag} {c'.frontier.seq} {c'.frontier.offset} p={intsStr ((c'.pending.map (·.seq)).mergeSort (fun a b => decide (a ≤ b)))} a={intsStr (c'.advanced.map (·.seq))}"
+    let line := s!"#{tag} {c'.frontier.seq} {c'.frontier.offset} p={intsStr (((c'.pending.map (fun r => (r.seq, (0 : Int)))) |> idxSort).map (·.1))} a={intsStr (c'.advanced.map (·.seq))}"
       ++ String.join (rs.map (fun r => " | " ++ reqStr r))
     line :: renderCoord tag c' rest
 
